@@ -257,7 +257,13 @@ def _str_escape(s: str) -> str:
     return s
 
 def _bytes_escape(b: bytes) -> str:
-    return repr(b)[2:-1]
+    r = repr(b)
+    s = r[2:-1]
+    if r[1] == '"':
+        # repr() chose double quotes because the content has single quotes (and no double quote);
+        # we always present bytes inside single quotes.
+        s = s.replace("'", "\\'")
+    return s
 
 class PyvalColorizer:
     """
